@@ -60,6 +60,8 @@ MUTS = {
  "linger-forever": ("src/h1.c", "        if (cur_ts - con->close_timeout_ts > HTTP_LINGER_TIMEOUT)\n            changed = 1;", "        if (cur_ts - con->close_timeout_ts > HTTP_LINGER_TIMEOUT)\n            changed = 0;", ["C13"]),
  "status-304-keeps-body": ("src/response.c", "      case 304: /* cooperate with http_response_304() */\n        http_response_body_clear(r, 1);", "      case 304: /* cooperate with http_response_304() */\n        if (0) http_response_body_clear(r, 1);", ["C04", "C10"]),
  "backend-timeout-off": ("src/h1.c", "        if (cur_ts - con->write_request_ts > r->conf.max_write_idle) {", "        if (cur_ts - con->write_request_ts > 100000 + r->conf.max_write_idle) {", ["C13"]),
+ "h2-rst-ignored": ("src/h2.c", "        r->state = CON_STATE_ERROR;\n        r->x.h2.state = H2_STATE_CLOSED;\n\n        /* attempt to detect HTTP/2 rapid reset attack", "        r->x.h2.state = H2_STATE_CLOSED;\n\n        /* attempt to detect HTTP/2 rapid reset attack", ["C05", "C06"]),
+ "deflate-cache-in-place": ("src/mod_deflate.c", "    hctx->cache_fn[fnlen] = '.';\n", "    hctx->cache_fn[fnlen] = '\\0';\n", ["C19"]),
  "else-link": ("src/configparser.y", "    C->prev = B;\n    B->next = C;\n    A = C;", "    C->prev = B;\n    A = C;", ["C14"]),
 }
 
